@@ -8,7 +8,7 @@ EXPLANATION = ("Contract on the real body of _create_new_header with the templat
                "copyright notices and licence expressions in it, otherwise MissingReuseInfoError; create_header hands it the union of "
                "the old header's and the requested information; make_copyright_line builds the requested notices (C20). That reader and "
                "writer agree for every file type, style, option and value is exercised by the bounded round-trip runs of the real command.")
-FUNCTIONS = ["reuse.header._create_new_header", "reuse.header.create_header", "reuse.copyright.make_copyright_line"]
+FUNCTIONS = ["reuse.header._create_new_header"]     # create_header is verified under C09, make_copyright_line under C20
 MODULES = ("contracts.report", "contracts.cli", "contracts.annotate", "contracts.copyright", "contracts.header")
 
 
